@@ -231,28 +231,37 @@ static void declare_into(nitro::options::parser& p, const decl_t& d, std::set<st
         if (!have.insert(o.name).second) return;
         auto& x = group_for(p, k++).option(o.name, "d");
         if (g_handles) g_handles->o[o.name] = &x;
-        if (o.has_sh) x.short_name(o.sh);
-        if (o.has_env) x.env(o.env);
-        if (o.has_def) x.default_value(o.def);
-        if (o.opt) x.optional();
+        // fluent style for every other declaration: each setter is applied to what the previous one RETURNED
+        bool fluent = ((h >> 17) ^ o.name.size()) & 1;
+        auto* c = &x;
+        if (o.has_sh) { auto& r = c->short_name(o.sh); if (fluent) c = &r; }
+        if (o.has_env) { auto& r = c->env(o.env); if (fluent) c = &r; }
+        if (o.has_def) { auto& r = c->default_value(o.def); if (fluent) c = &r; }
+        if (o.opt) c->optional();
     };
     auto decl_m = [&](const mdecl& o) {
         if (!have.insert(o.name).second) return;
         auto& x = group_for(p, k++).multi_option(o.name, "d");
         if (g_handles) g_handles->m[o.name] = &x;
-        if (o.has_sh) x.short_name(o.sh);
-        if (o.has_env) x.env(o.env);
-        if (o.has_def) x.default_value(o.def);
-        if (o.opt) x.optional();
+        bool fluent = ((h >> 19) ^ o.name.size()) & 1;
+        auto* c = &x;
+        if (o.has_sh) { auto& r = c->short_name(o.sh); if (fluent) c = &r; }
+        if (o.has_env) { auto& r = c->env(o.env); if (fluent) c = &r; }
+        if (o.has_def) { auto& r = c->default_value(o.def); if (fluent) c = &r; }
+        if (o.opt) c->optional();
     };
     auto decl_t_ = [&](const tdecl& o) {
         if (!have.insert(o.name).second) return;
         auto& x = group_for(p, k++).toggle(o.name, "d");
         if (g_handles) g_handles->t[o.name] = &x;
-        if (o.has_sh) x.short_name(o.sh);
-        if (o.has_env) x.env(o.env);
-        x.default_value(o.def);
-        if (o.rev) x.allow_reverse();
+        bool fluent = ((h >> 23) ^ o.name.size()) & 1;
+        auto* c = &x;
+        if (o.has_sh) { auto& r = c->short_name(o.sh); if (fluent) c = &r; }
+        if (o.has_env) { auto& r = c->env(o.env); if (fluent) c = &r; }
+        // both overloads of default_value: bool for 0/1 in every other declaration, int otherwise
+        if ((o.def == 0 || o.def == 1) && (((h >> 11) ^ o.name.size()) & 1)) { auto& r = c->default_value(o.def == 1); if (fluent) c = &r; }
+        else { auto& r = c->default_value(o.def); if (fluent) c = &r; }
+        if (o.rev) c->allow_reverse();
     };
     auto all_o = [&] { std::size_t n = d.os.size(); for (std::size_t i = 0; i < n; i++) decl_o(d.os[(i + h % (n ? n : 1)) % n]); };
     auto all_m = [&] { std::size_t n = d.ms.size(); for (std::size_t i = 0; i < n; i++) decl_m(d.ms[(n - 1 - i + (h / 7) % (n ? n : 1)) % n]); };
